@@ -23,7 +23,7 @@ def hashed_inputs(rng, n):
     """Inputs whose expansion iterates hashed collections."""
     out = []
     for k in range(n):
-        kind = k % 6
+        kind = k % 8
         tys = rng.sample([t for t in TYS if "T" not in t], rng.randrange(8, 14))
         if kind == 0:
             vs = ", ".join("V%d(%s)" % (i, t) for i, t in enumerate(tys))
@@ -42,6 +42,30 @@ def hashed_inputs(rng, n):
             out.append(("Error", "enum E<%s> { %s }" % (", ".join(ps), vs)))
         elif kind == 4:
             out.append(("Into", "#[into(owned(%s), ref(%s), ref_mut(%s))] struct S(u8);" % (", ".join(tys[:6]), ", ".join(tys[2:9]), ", ".join(tys[4:10]))))
+        elif kind == 6:
+            # many things of one kind in a single fmt attribute: pointer placeholders naming fields (each gets a derive-added
+            # argument), named arguments, repeated and distinct inferred bounds
+            m = rng.randrange(3, 9)
+            fs = ["f%d" % i for i in range(m)]
+            rng.shuffle(fs)
+            lit = " ".join("{%s:p}" % f for f in fs)
+            decl = "struct S<'a> { %s }" % ", ".join("%s: &'a u%d" % (f, rng.choice((8, 16, 32))) for f in sorted(fs))
+            out.append(("Display", '#[display("%s")] %s' % (lit, decl)))
+            out.append(("Pointer", '#[pointer("%s")] %s' % (lit, decl)))
+            out.append(("Debug", '#[debug("%s")] %s' % (lit, decl)))
+            out.append(("Display", '#[display("%s", %s)] %s' % (" ".join("{n%d}" % i for i in range(m)), ", ".join("n%d = %s" % (i, f) for i, f in enumerate(fs)), decl)))
+        elif kind == 7:
+            m = rng.randrange(3, 8)
+            ps = ["T%d" % i for i in range(m)]
+            vs = []
+            for i in range(m + 3):
+                vs.append("V%d(%s)" % (i, rng.choice(ps)))
+            vs.append('#[display("{_0} {_1}")] W(%s, %s)' % (rng.choice(ps), rng.choice(ps)))
+            out.append(("Display", "enum E<%s> { %s }" % (", ".join(ps), ", ".join(vs))))
+            out.append(("Debug", "struct R<%s> { %s }" % (", ".join(ps), ", ".join("f%d: %s" % (i, rng.choice(ps)) for i in range(m + 3)))))
+            out.append(("Debug", "enum E<%s> { %s }" % (", ".join(ps), ", ".join(v for v in vs[:-1]))))
+            out.append(("Display", '#[display("%s")] #[display(bound(%s))] struct B<%s> { %s }' % (
+                " ".join("{f%d}" % i for i in range(m)), ", ".join("%s: Clone" % p for p in ps), ", ".join(ps), ", ".join("f%d: %s" % (i, p) for i, p in enumerate(ps)))))
         else:
             out.append(("From", "#[from(%s)] struct S(u8);" % ", ".join(tys)))
             out.append(("AsRef", "#[as_ref(%s)] struct S(u8);" % ", ".join(tys)))
